@@ -715,7 +715,7 @@ func c05(r *core.Run) {
 	}
 	// the Match passed to processing is the result of routing the same name (handleRequest)
 	for _, c := range callsTo(root, proc) {
-		h := core.Outermost(c.Parent())
+		h := messageHandlerOf(p, c)
 		var get ssa.CallInstruction
 		for _, cc := range helperCalls(p, h) {
 			if cal := cc.Common().StaticCallee(); cal != nil && cal.Name() == "GetHandler" {
@@ -807,7 +807,7 @@ func c05(r *core.Run) {
 	r.Check(a1 == a2 && len(dispTypes) >= 4, "D1", core.FuncName(body), "dispatch-types==subscribed-types", p.Pos(body.Pos()), "both are {"+a1+"}", "dispatcher handles {"+a1+"} but subscribe() subscribes {"+a2+"}: a subscribed type would fall into the unanswered default arm (or a dispatched type is never delivered)")
 	// D3: handleRequest method stripping
 	for _, c := range callsTo(root, proc) {
-		h := core.Outermost(c.Parent())
+		h := messageHandlerOf(p, c)
 		strip := map[string]bool{}
 		for _, cc := range helperCalls(p, h) {
 			if cal := cc.Common().StaticCallee(); cal != nil && cal.String() == "strings.LastIndexByte" {
@@ -835,6 +835,29 @@ func c05(r *core.Run) {
 					if succ == 0 {
 						for _, k := range globalSetKeys(cnd) {
 							strip[k] = true
+						}
+						// ... or the answer of a classifier helper: the constants whose comparison leads
+						// straight to its `return true`
+						if call, ok := cnd.(*ssa.Call); ok {
+							if cal := call.Common().StaticCallee(); cal != nil && len(cal.Blocks) > 0 && cal.Pkg == cc.Parent().Pkg {
+								for _, ret := range core.Returns(cal) {
+									if len(ret.Results) != 1 || !isConstBool(ret.Results[0], true) {
+										continue
+									}
+									rb := ret.Block()
+									for _, pb := range rb.Preds {
+										iff, ok := pb.Instrs[len(pb.Instrs)-1].(*ssa.If)
+										if !ok || pb.Succs[0] != rb {
+											continue
+										}
+										if bo, ok := iff.Cond.(*ssa.BinOp); ok && bo.Op == token.EQL {
+											if s, ok := core.ConstString(bo.Y); ok {
+												strip[s] = true
+											}
+										}
+									}
+								}
+							}
 						}
 					}
 				}
